@@ -88,6 +88,14 @@ CHECKS = {
             'partial: hash seed, locale, cwd, process identity and parallel writers are outside any executable model; they '
             'are monitored by the correspondence only. strace-level read/write sets are not checked in the quick tier.',
             'Coq proof (reset invariant over call histories) + environment/history/parallel experiments', '6 C14'),
+    'C17': ('proof', 'Theorems (Props/C17.v): cpp_decode(literal s) = utf8 s for every text of printable characters (table '
+            'regenerated from the running interpreter) plus tab/newline/CR, any mix of quotes and backslashes - full statement '
+            'refuted (U+0085+hex digit, U+00A0); the k-th request with one key returns the k-th matching member definition '
+            '(memory invariant); kept members are candidates whose parameter names match; generated records with XML, '
+            'docstrings removed, equal those without XML. Tie: generated Doxygen worlds x query sequences vs Xml/Doc.v; texts over '
+            'Unicode through the wrapper\'s literal expression vs Xml/Escape.v and the verified decoder; with/without XML.',
+            'ElementTree / str.strip are modelled (ASCII whitespace); the C++ lexer\'s escape decoding is formalised, g++ not run in quick.',
+            'Coq proof (escape round trip, selection invariant, non-interference) + correspondence', '6 C17'),
     'C13': ('proof', 'Theorems (Props/C13.v): an instantiation is a function of its own argument tuple only (lists are '
             'never read), pointwise image of the product; alpha-invariance on the C02 domain via the substitution spec; '
             'refuted in general by the substring rewrite (recorded). Tie: metamorphic experiments on the implementation '
